@@ -1,24 +1,33 @@
-"""Builds meshes with /repo's mouette from raw data given in several container forms and reports canonical
-observations of the finished object (C02).
+"""Builds meshes with /repo's mouette from raw data given in several container forms (or through a file) and reports
+canonical observations of the finished object (C02).
 
 stdin : {"cases": [case, ...]}
-  case = {"verts": [[x,y(,z)],...]  (integers), "edges": [[a,b],...], "faces": [[...],...], "cells": [[...],...],
+  case = {"verts": [[x,y(,z)],...]  integers in QUARTER units (coordinate = value/4; width 1, 2 or 3),
+          "vints": bool (give the coordinates as Python/numpy ints when they are whole numbers),
+          "edges": [[a,b],...], "faces": [[...],...], "cells": [[...],...],
           "eattrs": [{"name": str, "dense": bool, "default": int|null, "type": "int"|"bool",
                       "set": [[idx,val],...]  (sparse: assignment order)  |  "vals": [v,...] (dense, one per edge)}],
           "cfg": [complete_faces_from_cells, complete_edges_from_faces], "dim": null|0..3,
-          "routes": ["list"|"tuple"|"numpy"|"append"|"from_arrays", ...], "rewraps": k,
-          "edits": [[edit,...] per rewrap]  (applied to RawMeshData(mesh) before it is built again; see apply_edit),
-          "script": [[query, args...], ...]}
-stdout: '@@JSON ' + {"cases": [ {route: {"stages": [obs0, obs1, ...], "script": [answers]} | {"crash": ...}} ]}
+          "routes": [route, ...], "rewraps": k, "edits": [[edit,...] per rewrap], "script": [[op, args...], ...]}
+  route = "list" | "tuple" | "numpy" | "append"          rows of RawMeshData given in that container form
+        | "from_arrays"                                   mouette.mesh.from_arrays
+        | "file2d_obj" | "file2d_off"                     a hand-written file (vertex lines with as many columns as the
+                                                          points have, `l`/`f` lines), loaded with mouette.mesh.load
+        | "save_obj" | "save_off" | "save_mesh" | "save_geogram_ascii"
+                                                          the mesh built through lists, saved by mouette, loaded again
+stdout: '@@JSON ' + {"cases": [ {route: {"stages": [obs0, obs1, ...], "script": [answers], ("input": raw_obs)}
+                                        | {"skip": reason} | {"crash": ...}} ]}
   obs = {"err": ExceptionClassName} |
-        {"class": name, "verts": [[..]], "edges": [[a,b]], "faces", "cells", "fc": [elem, adj], "cc": [elem, adj],
-         "cf": [elem, adj], "eattrs": [{"name","kind","default","keys","vals"}], "shape_ok": bool}
-  stage 0 is the first construction, stage i>0 the i-th `RawMeshData(mesh)` -> instantiate again.
-Index rows are reported as integer lists whatever container the implementation holds them in; `shape_ok` says
-that every edge is a 2-tuple (the immutable form the code promises).
+        {"class", "verts" (quarter units), "vec_ok", "float_ok", "edges", "faces", "cells", "fc": [elem, adj], "cc", "cf",
+         "eattrs": [{"name","kind","default","keys","vals"}], "types": {"edges"|"faces"|"cells": [row type names]}}
+  For a file route "input" is what the importer produced (the RawMeshData before prepare, corner containers included):
+  it is the raw input of that route.  stage 0 is the first construction, stage i>0 the i-th
+  `RawMeshData(mesh)` -> edits -> instantiate again.
 """
 import json
+import os
 import sys
+import tempfile
 
 
 def as_int(x):
@@ -36,38 +45,77 @@ def row(r):
     return [as_int(v) for v in r]
 
 
-def observe(m):
-    import mouette as M
+def q4(x):
+    """coordinate -> quarter units (exact)"""
+    y = float(x) * 4
+    if y != int(y):
+        raise ValueError("coordinate %r is not a multiple of 1/4" % (x,))
+    return int(y)
+
+
+def tname(r):
+    import numpy as np
+    inner = sorted({type(v).__name__ for v in r}) if isinstance(r, (list, tuple, np.ndarray)) else []
+    return type(r).__name__ + "[" + ",".join(inner) + "]"
+
+
+def observe_attrs(cont, ne):
     from mouette.mesh.mesh_attributes import ArrayAttribute
+    at = []
+    for name in cont.attributes:
+        a = cont.get_attribute(name)
+        dense = isinstance(a, ArrayAttribute)
+        d = {"name": name, "kind": "dense" if dense else "sparse", "default": as_int(a.default_value)}
+        if a.elemsize != 1:
+            raise ValueError("attribute %s has elem_size %d" % (name, a.elemsize))
+        if dense:
+            d["keys"] = None
+            d["n"] = int(a.n_elem)
+        else:
+            d["keys"] = sorted(as_int(k) for k in a._data.keys())
+        d["vals"] = [as_int(a[i]) for i in range(ne)]
+        at.append(d)
+    return at
+
+
+def observe(m):
+    import numpy as np
+    import mouette as M
     o = {"class": type(m).__name__}
-    o["verts"] = [row(v) for v in m.vertices]
+    o["verts"] = [[q4(x) for x in v] for v in m.vertices]
     o["vec_ok"] = all(isinstance(v, M.Vec) for v in m.vertices)
+    o["float_ok"] = all(np.asarray(v).dtype == np.float64 for v in m.vertices)
     has = lambda n: hasattr(m, n)
     o["edges"] = [row(e) for e in m.edges] if has("edges") else None
-    o["shape_ok"] = all(isinstance(e, tuple) and len(e) == 2 for e in m.edges) if has("edges") else True
     o["faces"] = [row(f) for f in m.faces] if has("faces") else None
     o["cells"] = [row(c) for c in m.cells] if has("cells") else None
+    o["types"] = {k: sorted({tname(r) for r in getattr(m, k)}) for k in ("edges", "faces", "cells") if has(k)}
     for k, n in (("fc", "face_corners"), ("cc", "cell_corners"), ("cf", "cell_faces")):
         if has(n):
             c = getattr(m, n)
             o[k] = [row(c._elem), row(c._adj)]
         else:
             o[k] = None
-    at = []
-    if has("edges"):
-        ne = len(m.edges)
-        for name in m.edges.attributes:
-            a = m.edges.get_attribute(name)
-            dense = isinstance(a, ArrayAttribute)
-            d = {"name": name, "kind": "dense" if dense else "sparse", "default": as_int(a.default_value)}
-            if dense:
-                d["keys"] = None
-                d["n"] = int(a.n_elem)
-            else:
-                d["keys"] = sorted(as_int(k) for k in a._data.keys())
-            d["vals"] = [as_int(a[i]) for i in range(ne)]
-            at.append(d)
-    o["eattrs"] = at
+    o["eattrs"] = observe_attrs(m.edges, len(m.edges)) if has("edges") else []
+    return o
+
+
+def observe_raw(r):
+    """the RawMeshData an importer produced, as the raw input of the route"""
+    o = {"verts": [[q4(x) for x in v] for v in r.vertices],
+         "edges": [row(e) for e in r.edges], "faces": [row(f) for f in r.faces], "cells": [row(c) for c in r.cells],
+         "fc": [row(r.face_corners._elem), row(r.face_corners._adj)],
+         "cc": [row(r.cell_corners._elem), row(r.cell_corners._adj)],
+         "cf": [row(r.cell_faces._elem), row(r.cell_faces._adj)]}
+    if any(len(e) != 2 for e in o["edges"]):
+        raise ValueError("edge of arity != 2")
+    o["eattrs"] = []
+    for a in observe_attrs(r.edges, len(r.edges)):
+        if a["kind"] == "dense":
+            o["eattrs"].append({"name": a["name"], "dense": True, "default": a["default"], "type": "int", "vals": a["vals"]})
+        else:
+            o["eattrs"].append({"name": a["name"], "dense": False, "default": a["default"], "type": "int",
+                                "set": [[k, a["vals"][k]] for k in a["keys"] if k < len(a["vals"])]})
     return o
 
 
@@ -82,17 +130,19 @@ def conv_rows(rows, route):
     raise ValueError(route)
 
 
-def build_raw(case, route):
+def conv_vertex(v, route, vints):
     import numpy as np
-    import mouette as M
+    if vints and all(x % 4 == 0 for x in v):
+        c = [x // 4 for x in v]
+        return np.array(c, dtype=np.int64) if route == "numpy" else tuple(c) if route == "tuple" else c
+    c = [x / 4.0 for x in v]
+    return np.array(c, dtype=float) if route == "numpy" else tuple(c) if route == "tuple" else c
+
+
+def build_raw(case, route):
     from mouette.mesh.mesh_data import RawMeshData
     r = RawMeshData()
-    if route == "numpy":
-        vs = [np.array(v, dtype=float) for v in case["verts"]]
-    elif route == "tuple":
-        vs = [tuple(float(x) for x in v) for v in case["verts"]]
-    else:
-        vs = [[float(x) for x in v] for v in case["verts"]]
+    vs = [conv_vertex(v, route, case.get("vints")) for v in case["verts"]]
     E, F, C = (conv_rows(case[k], route) for k in ("edges", "faces", "cells"))
     if route == "append":
         for v in vs:
@@ -123,17 +173,41 @@ def build_raw(case, route):
     return r
 
 
+def fmt(x):
+    return repr(x / 4.0)
+
+
+def write_file2d(case, ext, path):
+    """a file written by hand: vertex lines with as many columns as the points have"""
+    with open(path, "w") as f:
+        if ext == "obj":
+            for v in case["verts"]:
+                f.write("v " + " ".join(fmt(x) for x in v) + "\n")
+            for a, b in case["edges"]:
+                f.write("l %d %d\n" % (a + 1, b + 1))
+            for F in case["faces"]:
+                f.write("f " + " ".join(str(i + 1) for i in F) + "\n")
+        else:
+            f.write("OFF\n%d %d %d\n" % (len(case["verts"]), len(case["faces"]) + len(case["edges"]), 0))
+            for v in case["verts"]:
+                f.write(" ".join(fmt(x) for x in v) + "\n")
+            for F in case["faces"]:
+                f.write("%d " % len(F) + " ".join(str(i) for i in F) + "\n")
+            for a, b in case["edges"]:
+                f.write("2 %d %d\n" % (a, b))
+
+
 def apply_edit(raw, e, route):
     """one edit of a re-wrapped mesh: ["clear_fc"|"clear_cc"|"clear_cf"|"clear_edges"|"clear_faces"|"clear_cells"] |
-    ["add_vertex", [x,y,z]] | ["add_edge"|"add_face"|"add_cell", row] | ["set_face"|"set_cell", i, row] (index i mod len) |
-    ["pop_face"|"pop_cell"]"""
+    ["add_vertex", [x,y,z] (quarter units)] | ["add_edge"|"add_face"|"add_cell", row] |
+    ["set_face"|"set_cell", i, row] (index i mod len) | ["pop_face"|"pop_cell"]"""
     k = e[0]
     cont = {"fc": "face_corners", "cc": "cell_corners", "cf": "cell_faces", "edges": "edges", "faces": "faces",
             "cells": "cells", "edge": "edges", "face": "faces", "cell": "cells"}
     if k.startswith("clear_"):
         getattr(raw, cont[k[6:]]).clear()
     elif k == "add_vertex":
-        raw.vertices.append([float(x) for x in e[1]])
+        raw.vertices.append([x / 4.0 for x in e[1]])
     elif k.startswith("add_"):
         getattr(raw, cont[k[4:]]).append(conv_rows([e[1]], route)[0])
     elif k.startswith("set_"):
@@ -148,40 +222,48 @@ def apply_edit(raw, e, route):
         raise ValueError(e)
 
 
-def canon(r):
+# ---------------------------------------------------------------------- later behaviour: typed answers
+def canon(r, depth=0):
+    """A typed canonical form: container kinds (list / tuple / ndarray / set) and numpy scalars are kept visible, because
+    later behaviour (==, hashing, serialisation) depends on them."""
     import numpy as np
+    import mouette as M
     if r is None:
-        return ["none"]
-    if isinstance(r, (bool, np.bool_)):
-        return ["bool", bool(r)]
-    if isinstance(r, (int, np.integer)):
-        return ["int", int(r)]
+        return None
+    if isinstance(r, (bool,)):
+        return {"bool": r}
+    if isinstance(r, np.bool_):
+        return {"npbool": bool(r)}
+    if isinstance(r, int):
+        return r
+    if isinstance(r, np.integer):
+        return {"npint": int(r)}
+    if isinstance(r, (float, np.floating)):
+        return {"float": round(float(r), 9)}
+    if isinstance(r, str):
+        return {"str": r}
+    if depth > 3:
+        return {"deep": type(r).__name__}
+    if isinstance(r, M.Vec):
+        return {"Vec": [canon(x, depth + 1) for x in r]}
     if isinstance(r, np.ndarray):
-        r = r.tolist()
+        return {"A": [canon(x, depth + 1) for x in r.tolist()] if r.ndim == 1 else r.tolist()}
     if isinstance(r, (set, frozenset)):
-        r = sorted(r, key=repr)
-    if isinstance(r, (list, tuple, range)):
-        out = []
-        for x in r:
-            if x is None:
-                out.append(None)
-            elif isinstance(x, (int, np.integer)) and not isinstance(x, (bool, np.bool_)):
-                out.append(int(x))
-            elif isinstance(x, (list, tuple, np.ndarray)):
-                out.append(canon(x)[1] if canon(x)[0] == "list" else repr(x))
-            else:
-                return ["other", repr(r)[:200]]
-        return ["list", out]
-    return ["other", repr(r)[:200]]
+        return {"S": sorted((canon(x, depth + 1) for x in r), key=repr)}
+    if isinstance(r, tuple):
+        return {"T": [canon(x, depth + 1) for x in r]}
+    if isinstance(r, (list, range)):
+        return {"L": [canon(x, depth + 1) for x in r]}
+    return {"other": type(r).__name__}
 
 
-SET_LIKE = {"vertex_to_cell", "face_to_cells", "edge_to_cell", "cell_to_face_hex", "vertex_to_faces_unsorted"}
-
-
-ARGK = {"cell_to_face": "c", "cell_to_edge": "c", "vertex_to_cell": "v", "face_to_cells": "f", "edge_to_cell": "e",
-        "in_cell_index": "cv", "in_cell_face_index": "cf", "cell_to_cell": "c", "face_to_vertices": "f",
+ARGK = {"cell_to_face": "c", "cell_to_edge": "c", "cell_to_vertex": "c", "vertex_to_cell": "v", "face_to_cells": "f",
+        "edge_to_cell": "e", "in_cell_index": "cv", "in_cell_face_index": "cf", "cell_to_cell": "c", "face_to_vertices": "f",
         "face_to_edges": "f", "face_to_faces": "f", "vertex_to_faces": "v", "vertex_to_vertices": "v",
-        "vertex_to_edges": "v", "is_vertex_on_border": "v", "in_face_index": "fv", "edge_to_vertices": "e"}
+        "vertex_to_edges": "v", "is_vertex_on_border": "v", "in_face_index": "fv", "edge_to_vertices": "e",
+        "row_face": "f", "row_cell": "c", "row_edge": "e", "attr_edges": "e", "attr_faces": "f", "attr_vertices": "v"}
+SORTED = {"vertex_to_cell", "face_to_cells", "edge_to_cell", "vertex_to_faces", "vertex_to_vertices", "vertex_to_edges",
+          "face_to_faces", "cell_to_cell", "cell_to_edge"}
 
 
 def resolve(m, name, args):
@@ -196,41 +278,83 @@ def resolve(m, name, args):
         if size[k] == 0:
             return None
         out.append(a % size[k])
-    return out + list(args[len(kinds):])
+    if name.startswith("attr_"):
+        return out + list(args[len(kinds):])
+    return out
+
+
+for _n in ("boundary_edges", "interior_edges", "boundary_vertices", "interior_vertices", "boundary_faces", "interior_faces",
+           "is_triangular", "is_quad", "is_tetrahedral", "copy", "merge"):
+    ARGK[_n] = ""
+
+
+def counts(m):
+    return [type(m).__name__, len(m.vertices)] + [len(getattr(m, k)) if hasattr(m, k) else None for k in ("edges", "faces", "cells")]
+
+
+def first_rows(m):
+    return [canon(getattr(m, k)[0]) if hasattr(m, k) and len(getattr(m, k)) else None for k in ("edges", "faces", "cells")]
+
+
+def run_op(m, name, args):
+    import mouette as M
+    cn = getattr(m, "connectivity", None)
+    if name in ("boundary_edges", "interior_edges", "boundary_vertices", "interior_vertices", "boundary_faces", "interior_faces"):
+        return canon(list(getattr(m, name)))
+    if name in ("is_edge_on_border", "is_vertex_on_border", "is_face_on_border", "is_triangular", "is_quad", "is_tetrahedral"):
+        return canon(getattr(m, name)(*args))
+    if name == "row_face":       # the row the public container hands back, and python behaviour that depends on its type
+        return canon(m.faces[args[0]])
+    if name == "row_cell":
+        return canon(m.cells[args[0]])
+    if name == "row_edge":
+        r = m.edges[args[0]]
+        return [canon(r), json.dumps(list(r)) if all(isinstance(x, int) for x in r) else "not-json"]
+    if name == "copy":
+        m2 = M.mesh.copy(m)
+        return [counts(m2), first_rows(m2)]
+    if name == "merge":
+        m2 = M.mesh.merge([m, m])
+        return [counts(m2), first_rows(m2)]
+    if name in ("attr_edges", "attr_faces", "attr_vertices"):
+        cont = getattr(m, name[5:])
+        a = cont.create_attribute("c02_probe_%s" % name, int, dense=bool(args[1] % 2))
+        a[args[0]] = 7
+        return [canon(a[args[0]]), canon(a[(args[0] + 1) % len(cont)])]
+    if name == "save":
+        ext = ["mesh", "obj", "geogram_ascii"][args[0] % 3]
+        fd, path = tempfile.mkstemp(suffix="." + ext)
+        os.close(fd)
+        try:
+            M.mesh.save(m, path)
+            m2 = M.mesh.load(path)
+            return [ext, counts(m2), first_rows(m2)]
+        finally:
+            try:
+                os.remove(path)
+            except OSError:
+                pass
+    r = getattr(cn, name)(*args)
+    if name in SORTED and r is not None:
+        return {"sorted": sorted(canon(x) if not isinstance(x, int) else x for x in r), "kind": type(r).__name__,
+                "elts": sorted({type(x).__name__ for x in r})}
+    return canon(r)
 
 
 def run_script(m, script):
     obs = []
-    cn = getattr(m, "connectivity", None)
     for q in script:
         name, args = q[0], q[1:]
-        if name == "sorted":
-            ra = resolve(m, args[0], args[1:])
-            args = None if ra is None else [args[0]] + ra
-        else:
-            args = resolve(m, name, args)
+        args = resolve(m, name, args)
         if args is None:
             obs.append(["skip"])
             continue
         try:
-            if name in ("boundary_edges", "interior_edges", "boundary_vertices", "interior_vertices",
-                        "boundary_faces", "interior_faces"):
-                r = list(getattr(m, name))
-            elif name in ("is_edge_on_border", "is_vertex_on_border", "is_face_on_border", "is_triangular",
-                          "is_quad", "is_tetrahedral", "ith_vertex_of_face"):
-                r = getattr(m, name)(*args)
-            elif name == "sorted":  # ["sorted", query, args...]: answer compared as a set
-                r = getattr(cn, args[0])(*args[1:])
-                r = sorted(int(x) for x in r)
-            else:
-                r = getattr(cn, name)(*args)
-                if isinstance(r, list):
-                    r = list(r)
-            obs.append(canon(r))
+            obs.append(["ok", run_op(m, name, args)])
         except RecursionError:
             obs.append(["err", "RecursionError"])
         except Exception as ex:
-            obs.append(["err", type(ex).__name__])
+            obs.append(["err", type(ex).__name__, str(ex)[:80]])
     return obs
 
 
@@ -244,36 +368,67 @@ def run_route(case, route):
     M.config.sort_neighborhoods = True
     stages = []
     m = None
-    try:
-        if route == "from_arrays":
-            V = np.array(case["verts"], dtype=float).reshape(len(case["verts"]), len(case["verts"][0]) if case["verts"] else 3)
-            kw = {}
-            if case["edges"]:
-                kw["E"] = np.array(case["edges"], dtype=np.int64)
-            if case["faces"]:
-                kw["F"] = np.array(case["faces"], dtype=np.int64)
-            if case["cells"]:
-                kw["C"] = np.array(case["cells"], dtype=np.int64)
-            m = M.mesh.from_arrays(V, **kw)
-        else:
-            raw = build_raw(case, route)
-            m = _instanciate_raw_mesh_data(raw, case.get("dim"))
-        stages.append(observe(m))
-    except Exception as ex:
-        stages.append({"err": type(ex).__name__, "msg": str(ex)[:120]})
-        return {"stages": stages, "script": []}
+    res = {}
+    rows_route = route if route in ("list", "tuple", "numpy", "append") else "list"
+    dim = None if route == "from_arrays" else case.get("dim")
+    if route.startswith("file2d_") or route.startswith("save_"):
+        ext = route.split("_", 1)[1]
+        fd, path = tempfile.mkstemp(suffix="." + ext)
+        os.close(fd)
+        try:
+            try:
+                if route.startswith("file2d_"):
+                    write_file2d(case, ext, path)
+                else:
+                    src = _instanciate_raw_mesh_data(build_raw(case, "list"), case.get("dim"))
+                    M.mesh.save(src, path)
+                raw = M.mesh.load(path, raw=True)
+                res["input"] = observe_raw(raw)
+            except Exception as ex:   # writing / parsing files is not what C02 is about
+                return {"skip": "%s: %s" % (type(ex).__name__, str(ex)[:100])}
+        finally:
+            try:
+                os.remove(path)
+            except OSError:
+                pass
+        try:
+            m = _instanciate_raw_mesh_data(raw, dim)
+            stages.append(observe(m))
+        except Exception as ex:
+            stages.append({"err": type(ex).__name__, "msg": str(ex)[:120]})
+            return dict(res, stages=stages, script=[])
+    else:
+        try:
+            if route == "from_arrays":
+                w = len(case["verts"][0]) if case["verts"] else 3
+                dt = np.int64 if case.get("vints") and all(x % 4 == 0 for v in case["verts"] for x in v) else float
+                V = (np.array(case["verts"], dtype=float) / 4.0).astype(dt).reshape(len(case["verts"]), w)
+                kw = {}
+                if case["edges"]:
+                    kw["E"] = np.array(case["edges"], dtype=np.int64)
+                if case["faces"]:
+                    kw["F"] = np.array(case["faces"], dtype=np.int64)
+                if case["cells"]:
+                    kw["C"] = np.array(case["cells"], dtype=np.int64)
+                m = M.mesh.from_arrays(V, **kw)
+            else:
+                m = _instanciate_raw_mesh_data(build_raw(case, route), dim)
+            stages.append(observe(m))
+        except Exception as ex:
+            stages.append({"err": type(ex).__name__, "msg": str(ex)[:120]})
+            return {"stages": stages, "script": []}
     edits = case.get("edits") or []
     for k in range(int(case.get("rewraps", 0))):
         try:
             raw = RawMeshData(m)
             for e in (edits[k] if k < len(edits) else []):
-                apply_edit(raw, e, "list" if route == "from_arrays" else route)
-            m = _instanciate_raw_mesh_data(raw, None if route == "from_arrays" else case.get("dim"))
+                apply_edit(raw, e, rows_route)
+            m = _instanciate_raw_mesh_data(raw, dim)
             stages.append(observe(m))
         except Exception as ex:
             stages.append({"err": type(ex).__name__, "msg": str(ex)[:120]})
-            return {"stages": stages, "script": []}
-    return {"stages": stages, "script": run_script(m, case.get("script", []))}
+            return dict(res, stages=stages, script=[])
+    return dict(res, stages=stages, script=run_script(m, case.get("script", [])))
 
 
 def main():
